@@ -445,10 +445,45 @@ class Outcome:
     returns: list      # [(pathcond list, value)]
     raises: list       # [(pathcond list, exc name, node)]
     env: dict = None
+    yielded: list = None
+    gen_unknown: bool = False
+
+
+class GenV:
+    """a generator object of a repository generator function, not yet run (it runs when it is consumed)."""
+
+    def __init__(self, fi, args, kwargs, depth):
+        self.fi, self.args, self.kwargs, self.depth = fi, args, kwargs, depth
+        self.consumed = False
+
+    def key(self):
+        return ('gen', self.fi.qualname, id(self))
+
+
+# builtins / container methods that run a generator argument to its end
+GEN_CONSUMERS = {'list', 'tuple', 'set', 'frozenset', 'sorted', 'sum', 'any', 'all', 'max', 'min', 'dict', 'enumerate', 'zip',
+                 'reversed', 'map', 'filter'}
+GEN_CONSUMER_METHODS = {'extend', 'join', 'update', 'union', 'array', 'asarray', 'fromiter', 'chain', 'from_iterable'}
+
+
+def _is_generator(fn):
+    """does the function body (nested functions and lambdas excluded) contain a yield?"""
+    stack = list(fn.body)
+    while stack:
+        n = stack.pop()
+        if isinstance(n, (ast.Yield, ast.YieldFrom)):
+            return True
+        if isinstance(n, (ast.FunctionDef, ast.AsyncFunctionDef, ast.Lambda, ast.ClassDef)):
+            continue
+        stack.extend(ast.iter_child_nodes(n))
+    return False
 
 
 class Frame:
     def __init__(self, fi, self_obj, depth):
+        self.yielded = []      # values yielded so far (generator functions)
+        self.gen_unknown = False
+        self.pending_abort = None
         self.fi = fi
         self.self_obj = self_obj
         self.depth = depth
@@ -628,6 +663,53 @@ class Evaluator:
                         pc.append(mk_not(c))
         return self.gated_return(out)
 
+    def drain(self, g, fr):
+        """Run a generator to its end: (list of the values it yielded | Unknown, ended-with-a-definite-raise).  Its raise
+        outcomes reach the consuming frame."""
+        if g.consumed:
+            return Tup((), 'list'), False
+        g.consumed = True
+        if g.depth > MAX_DEPTH:
+            return Unknown(f'inlining depth exceeded at generator {g.fi.qualname}'), False
+        caller = self._stack[-1] if self._stack else None
+        out = self.run(g.fi, g.args, g.kwargs, g.depth)
+        if out.gen_unknown:
+            return Unknown(f'generator {g.fi.name} yields under a symbolic condition or in a symbolic loop'), False
+        definite = False
+        if caller is not None and out.raises:
+            cfr, pc = caller
+            for rpc, name, node in out.raises:
+                cfr.raises.append((list(pc) + list(rpc), name, node))
+            definite = not out.returns and not out.fell_through
+            if not definite and len(out.raises) <= 3:
+                for rpc, name, node in out.raises:
+                    c = self.conj(rpc)
+                    if not isinstance(c, Const):
+                        pc.append(mk_not(c))
+        return Tup(tuple(out.yielded), 'list'), definite
+
+    def _callee_in_repo(self, n, env, fr):
+        """does the call expression n call a repository function/class (which receives a generator argument as it is)?"""
+        f = n.func
+        try:
+            if isinstance(f, ast.Name):
+                v = env.get(f.id)
+                if v is None:
+                    v = self.ref_of(self.m.resolve_name(fr.fi.module, f.id))
+                return isinstance(v, (FuncRef, ClassRef, LocalFunc))
+            if isinstance(f, ast.Attribute):
+                if isinstance(f.value, ast.Call):
+                    return False
+                base = self.expr(f.value, env, fr)
+                if isinstance(base, Obj) and base.ci is not None:
+                    r = self.m.lookup(base.ci, f.attr)
+                    return r is not None and r[1] == 'method'
+                if isinstance(base, (ClassRef,)):
+                    return True
+        except (AnalysisError, KeyError, TypeError):
+            return False
+        return False
+
     def gated_return(self, out):
         if not out.returns:
             return Const(None)
@@ -689,6 +771,7 @@ class Evaluator:
             self_obj.fields.clear()
             self_obj.fields.update(merged)
         out = Outcome(fr.returns, fr.raises, env)
+        out.yielded, out.gen_unknown = fr.yielded, fr.gen_unknown
         out.fell_through = fell
         return out
 
@@ -710,13 +793,35 @@ class Evaluator:
             finally:
                 self._stack.pop()
         try:
-            return self._stmt(st, env, pc, fr)
+            ok = self._stmt(st, env, pc, fr)
         except Aborted:
             return False
+        if fr.pending_abort is st:
+            fr.pending_abort = None      # the generator this loop consumed ended with an exception
+            return False
+        return ok
 
     def _stmt(self, st, env, pc, fr):
         if isinstance(st, ast.Expr):
             if isinstance(st.value, ast.Constant):
+                return True
+            if isinstance(st.value, (ast.Yield, ast.YieldFrom)):
+                if any(not (isinstance(c, Const) and c.v is True) for c in pc):
+                    fr.gen_unknown = True        # yielded under a symbolic condition
+                if isinstance(st.value, ast.Yield):
+                    fr.yielded.append(self.expr(st.value.value, env, fr) if st.value.value is not None else Const(None))
+                else:
+                    src = self.expr(st.value.value, env, fr)
+                    if isinstance(src, GenV):
+                        src, ab = self.drain(src, fr)
+                        if ab:
+                            fr.yielded.extend(_iter_items(src) or [])
+                            raise Aborted()
+                    items = _iter_items(src)
+                    if items is None:
+                        fr.gen_unknown = True
+                    else:
+                        fr.yielded.extend(items)
                 return True
             self.expr(st.value, env, fr)
             return True
@@ -753,6 +858,11 @@ class Evaluator:
             return self.branch(c, st.body, st.orelse, env, pc, fr)
         if isinstance(st, ast.For):
             it = self.expr(st.iter, env, fr)
+            if isinstance(it, GenV):
+                # the generator is run to its end (or to its raise): the loop body sees what it yielded before
+                it, ab = self.drain(it, fr)
+                if ab:
+                    fr.pending_abort = st
             items = _iter_items(it)
             if items is not None:
                 has_break = _has_break(st.body)
@@ -797,9 +907,13 @@ class Evaluator:
                 if not broke and st.orelse:
                     return self.block(st.orelse, env, pc, fr)
                 return True
+            if any(isinstance(x, (ast.Yield, ast.YieldFrom)) for x in ast.walk(st)):
+                fr.gen_unknown = True
             _havoc([st], env, 'loop over symbolic iterable')
             return True
         if isinstance(st, ast.While):
+            if any(isinstance(x, (ast.Yield, ast.YieldFrom)) for x in ast.walk(st)):
+                fr.gen_unknown = True
             _havoc([st], env, 'while loop')
             return True
         if isinstance(st, ast.With):
@@ -1654,6 +1768,23 @@ class Evaluator:
                     kwargs['**'] = v
             else:
                 kwargs[k.arg] = v
+        if any(isinstance(a, GenV) for a in args) and (
+                (isinstance(n.func, ast.Name) and n.func.id in GEN_CONSUMERS) or
+                (isinstance(n.func, ast.Attribute) and n.func.attr in GEN_CONSUMER_METHODS)) \
+                and not self._callee_in_repo(n, env, fr):
+            # a builtin / container method consumes the generator: it sees what was yielded before a raise
+            abort = False
+            for i, a in enumerate(args):
+                if isinstance(a, GenV):
+                    args[i], ab = self.drain(a, fr)
+                    abort = abort or ab
+            r = self._call_expr(n, env, fr, args, kwargs)
+            if abort:
+                raise Aborted()
+            return r
+        return self._call_expr(n, env, fr, args, kwargs)
+
+    def _call_expr(self, n, env, fr, args, kwargs):
         # super().method(...)
         if isinstance(n.func, ast.Attribute) and isinstance(n.func.value, ast.Call) and \
                 isinstance(n.func.value.func, ast.Name) and n.func.value.func.id == 'super' \
@@ -1767,6 +1898,8 @@ class Evaluator:
                     ([f.bound] if f.bound is not None else []) + args) + tuple(
                     Tup((Const(k), v)) for k, v in sorted(kwargs.items())))
             a = ([f.bound] if f.bound is not None else []) + args
+            if _is_generator(f.fi.node):
+                return GenV(f.fi, a, dict(kwargs), fr.depth + 1)
             return self.call(f.fi, a, kwargs, fr.depth + 1)
         if isinstance(f, ClassRef):
             if f.name in self.hooks:
@@ -1912,6 +2045,13 @@ class Evaluator:
                 and not args:
             # a mapping object whose entries the rule supplied (keyed record)
             return App('dict.' + meth, (base.fields['__data__'].copy(),))
+        if isinstance(base, Obj) and isinstance(base.fields.get('__data__'), DictV) and meth == 'get' and args \
+                and isinstance(args[0], Const) and not base.fields['__data__'].has_symbolic():
+            v = base.fields['__data__'].get(args[0].v)
+            if isinstance(v, Const) and v.v == '__absent__':
+                return args[1] if len(args) > 1 else Const(None)
+            if v is not None:
+                return v
         if isinstance(base, Obj) and base.cls in ('RegionMeta', 'RegionVisual') and base.path:
             if meth == 'get':
                 return App('meta.get', (base,) + tuple(args))
@@ -1968,7 +2108,7 @@ class Evaluator:
         a = args = [unq(x) for x in args]
         numeric = all(is_num(x) for x in a)
         if root in ('numpy', 'np', 'math') or name in ('abs', 'max', 'min', 'float', 'int',
-                                                       'cos', 'sin', 'sqrt', 'fabs'):
+                                                       'cos', 'sin', 'sqrt', 'fabs', 'asin', 'acos'):
             if short in ('cos', 'sin') and len(a) == 1 and is_num(a[0]):
                 x = a[0].subs(ANG, 1)
                 return sp.cos(x) if short == 'cos' else sp.sin(x)
@@ -1976,12 +2116,20 @@ class Evaluator:
                 return sp.sqrt(a[0])
             if short == 'hypot' and numeric and len(a) == 2:
                 return sp.sqrt(a[0] ** 2 + a[1] ** 2)
+            if short == 'square' and numeric and len(a) == 1 and not kwargs:
+                return a[0] ** 2
+            if short in ('power', 'float_power') and numeric and len(a) == 2 and not kwargs:
+                return a[0] ** a[1]
+            if short in ('multiply', 'add', 'subtract', 'true_divide', 'divide') and numeric and len(a) == 2 and not kwargs:
+                return {'multiply': a[0] * a[1], 'add': a[0] + a[1], 'subtract': a[0] - a[1]}.get(short, a[0] / a[1])
             if short in ('abs', 'fabs', 'absolute') and numeric and len(a) == 1:
                 return sp.Abs(a[0])
             if short == 'floor' and numeric:
                 return sp.floor(a[0])
             if short == 'ceil' and numeric:
                 return sp.ceiling(a[0])
+            if short in ('asin', 'arcsin', 'acos', 'arccos') and numeric and len(a) == 1:
+                return sp.asin(a[0]) if short in ('asin', 'arcsin') else sp.acos(a[0])
             if short == 'arctan2' and numeric and len(a) == 2:
                 return sp.Function('atan2')(a[0], a[1])
             if short in ('max', 'min') and len(a) == 2 and all(
@@ -2050,6 +2198,8 @@ class Evaluator:
                         tuple(Tup(i.items, 'array') if isinstance(i, Tup) else i for i in a[0].items), 'array')
                 if short != 'array' and not kwargs:
                     return a[0]
+                if is_num(a[0]) and set(kwargs) <= {'dtype'} and 'float' in show(kwargs.get('dtype'), 80):
+                    return a[0]          # a floating dtype keeps the (real) value
             if short == 'tensordot' and len(a) == 2 and isinstance(a[0], Tup) and isinstance(a[1], Tup) and (
                     kwargs.get('axes') == sp.Integer(1)):
                 r = _matmul(a[0], a[1])      # contraction of the last axis of a with the first of b
@@ -2337,6 +2487,8 @@ def _fold_isinstance(model, v, t):
     names = _cls_names(t)
     if names is None:
         return None
+    if isinstance(v, GenV):
+        return False        # a generator object is an instance of no repository class and no container type
     if isinstance(v, App) and v.name.startswith('astropy.') and v.name.split('.')[-1][:1].isupper():
         made = v.name.split('.')[-1]
         sub = {'Angle': {'Angle', 'Quantity'}, 'Quantity': {'Quantity'}, 'SkyCoord': {'SkyCoord'}}.get(made)
